@@ -3,11 +3,13 @@ package main
 import (
 	"bytes"
 	"encoding/binary"
+	"encoding/json"
 	"fmt"
 	"math/rand"
 	"os"
 	"path/filepath"
 	"strings"
+	"time"
 
 	"github.com/deepteams/webp"
 	"github.com/deepteams/webp/internal/lossy"
@@ -46,7 +48,7 @@ func vp8Sig(desc string) string {
 func checkC04(args []string) {
 	run := vx.NewRun("C04", "model_checking", args)
 	activeRun = run
-	run.Rule = "(1) valid VP8 key frames outside the package encoder's repertoire are produced by a seeded structure generator (segment maps with absolute/delta quantisers and filter strengths, quantiser index 0..127 with all five deltas, simple/normal filter, level 0..63, sharpness 0..7, loop-filter deltas with and without update, 1/2/4/8 partitions, with and without the skip flag, coded macroblocks whose residuals are all zero, every 16x16 / 4x4 / chroma mode, coefficient patterns over all token categories, probability updates); the TLA+ reader (spec/Vp8.tla) defines the planes and webp.Decode must return them bit-exactly; consecutive frames are decoded in one process so that pooled decoder state meets foreign headers; (2) libwebp-encoded files are decoded by the real decoder against libwebp's own reference planes (and by the TLA+ reader in the thorough tier); (3) ALPH chunks of the real encoder and raw/filtered ones are validated by C07's machinery. distinct = distinct generated frames accepted by the specification"
+	run.Rule = "(0) a TLA+ WRITER (spec/Vp8Gen.tla: boolean encoder, frame syntax, token writer) produces frames - incl. coded macroblocks with all-zero residuals under every filter setting - with the planes the reader spec defines, replayed on the real decoder; (1) valid VP8 key frames outside the package encoder's repertoire are produced by a seeded structure generator (segment maps with absolute/delta quantisers and filter strengths, quantiser index 0..127 with all five deltas, simple/normal filter, level 0..63, sharpness 0..7, loop-filter deltas with and without update, 1/2/4/8 partitions, with and without the skip flag, coded macroblocks whose residuals are all zero, every 16x16 / 4x4 / chroma mode, coefficient patterns over all token categories, probability updates); the TLA+ reader (spec/Vp8.tla) defines the planes and webp.Decode must return them bit-exactly; consecutive frames are decoded in one process so that pooled decoder state meets foreign headers; (2) libwebp-encoded files are decoded by the real decoder against libwebp's own reference planes (and by the TLA+ reader in the thorough tier); (3) ALPH chunks of the real encoder and raw/filtered ones are validated by C07's machinery. distinct = distinct generated frames accepted by the specification"
 	run.Assumptions = []string{"coefficient magnitudes are bounded so that dequantised values stay inside 16 bits", "frames up to 3x2 macroblocks in the quick tier (TLC speed)"}
 	rng := rand.New(rand.NewSource(run.Seed))
 	n := run.Pick(150, 2500)
@@ -107,6 +109,47 @@ func checkC04(args []string) {
 	run.Cov["generated"] = len(lines)
 	run.Cov["rejected_by_the_specification_and_skipped"] = skipped
 
+	// spec -> code: the TLA+ WRITER (spec/Vp8Gen.tla: boolean encoder + frame syntax) produces frames together with the
+	// planes the reader spec defines for them; the real decoder must return exactly those planes
+	wr := vx.MustTLC(vx.TLCOpts{Module: "Vp8Gen", Cfg: fmt.Sprintf("SPECIFICATION Spec\nCONSTANT SEED = %d\nINVARIANTS ReaderAccepts Emit\nCHECK_DEADLOCK FALSE\n", 3+run.Seed%50),
+		Workers: 1, Timeout: 30 * time.Minute, Heap: "4g"})
+	if wr.InvViolated != "" {
+		vx.Fatal2("Vp8Gen: the reader spec rejects what the writer spec wrote (%s): specification bug", wr.InvViolated)
+	}
+	run.AddTLC(wr)
+	nWr := 0
+	for _, raw := range wr.Tagged("CASE") {
+		var c struct {
+			Idx     int   `json:"idx"`
+			W, H    int
+			Bytes   []int `json:"bytes"`
+			Y, U, V []int
+		}
+		if err := json.Unmarshal(raw, &c); err != nil {
+			vx.Fatal2("Vp8Gen CASE: %v", err)
+		}
+		b := make([]byte, len(c.Bytes))
+		for i, v := range c.Bytes {
+			b[i] = byte(v)
+		}
+		name := fmt.Sprintf("TLA+ writer frame %d (%dx%d, layout %d, filter setting %d)", c.Idx, c.W, c.H, (c.Idx-1)/4+1, (c.Idx-1)%4+1)
+		nWr++
+		run.Eval(fmt.Sprintf("writer:%d", c.Idx))
+		run.AddTraces(1)
+		im, err := guardedDecode(wrapVP8(b))
+		if err != nil {
+			run.Violate("valid-frame-rejected|tla-writer", name+": "+err.Error(), map[string]any{"desc": name, "bytes": b})
+			continue
+		}
+		y, u, v, ok := ycbcrPlanes(im)
+		if !ok || im.Bounds().Dx() != c.W || im.Bounds().Dy() != c.H || !equalInts(y, c.Y) || !equalInts(u, c.U) || !equalInts(v, c.V) {
+			run.Violate(fmt.Sprintf("planes|tla-writer|filter-setting-%d", (c.Idx-1)%4+1), name+": decoded planes differ from the specification's", map[string]any{"desc": name, "bytes": b})
+		}
+	}
+	if nWr == 0 {
+		vx.Fatal2("Vp8Gen produced no frame")
+	}
+	run.Cov["frames_from_the_tla_writer"] = nWr
 	// libwebp fixtures against libwebp's reference planes
 	var fixLines []vp8Line
 	for _, f := range lossyFixtures() {
